@@ -1,8 +1,11 @@
 package op
 
 import (
+	"strings"
+
 	"github.com/berquerant/crd/errorx"
 	"github.com/berquerant/crd/note"
+	"gopkg.in/yaml.v3"
 )
 
 type Instance struct {
@@ -28,6 +31,20 @@ func (i Instance) Validate() error {
 }
 
 type Meta map[string]string
+
+// MarshalYAML keeps a text that consists of line breaks only: yaml.v3 writes such a string
+// as a block scalar without content, which reads back as the empty string.
+func (m Meta) MarshalYAML() (any, error) {
+	out := make(map[string]any, len(m))
+	for k, v := range m {
+		if v != "" && strings.Trim(v, "\r\n") == "" {
+			out[k] = &yaml.Node{Kind: yaml.ScalarNode, Tag: "!!str", Value: v, Style: yaml.DoubleQuotedStyle}
+			continue
+		}
+		out[k] = v
+	}
+	return out, nil
+}
 
 func (m Meta) Get(key string) string {
 	return m[key]
